@@ -11,10 +11,13 @@ from oracles import mgh
 PROPERTY = "C17"
 CONTAINERS = ["list", "ndarray", "csr", "csc", "lil"]
 FORMS = [(c, s) for c in CONTAINERS for s in ("upper", "sym")]
+# every other scipy.sparse container, sparse arrays, float and bool dense arrays
+EXTRA_FORMS = [("coo", "upper"), ("coo", "sym"), ("bsr", "upper"), ("bsr", "sym"), ("dok", "upper"), ("dok", "sym"), ("dia", "upper"), ("dia", "sym"),
+               ("csr_array", "upper"), ("csr_array", "sym"), ("coo_array", "sym"), ("ndarray_float", "sym"), ("ndarray_bool", "upper")]
 RULE = (
     "ALL labelled simple graphs on <= 4 vertices, connected or not (75 graphs, every vertex relabelling "
     "included), all ordered pairs; each pair in 10 container/symmetry combinations "
-    "({nested list, ndarray, csr, csc, lil} x {upper-triangular, symmetric}, rotated against each other); "
+    "({nested list, ndarray, csr, csc, lil} x {upper-triangular, symmetric}, rotated against each other) plus coo/bsr/dok/dia matrices, csr/coo sparse arrays, float and bool dense arrays; "
     "pairs with a disconnected graph additionally under every single deviation from the default RNG "
     "answers; collections: all ordered triples + pairs + one 4-collection from a 10-graph cover with "
     "mixed containers. Oracle: exact mGH on a largest connected component (any one when tied). "
@@ -22,7 +25,7 @@ RULE = (
     "disconnected or the two containers differ."
 )
 ASSUMPTIONS = [
-    "COO/DOK sparse formats are left out: scipy.sparse.csgraph itself rejects them",
+    "all scipy.sparse matrix formats (csr, csc, lil, coo, bsr, dok, dia) and csr/coo sparse arrays are part of the space",
     "a disconnected input must raise at least one warning (the statement does not fix the count)",
 ]
 COVER = None
@@ -59,7 +62,12 @@ def to_form(A, form):
         return M.tolist()
     if c == "ndarray":
         return M
-    return {"csr": sps.csr_matrix, "csc": sps.csc_matrix, "lil": sps.lil_matrix}[c](M)
+    if c == "ndarray_float":
+        return M.astype(float)
+    if c == "ndarray_bool":
+        return M.astype(bool)
+    return {"csr": sps.csr_matrix, "csc": sps.csc_matrix, "lil": sps.lil_matrix, "coo": sps.coo_matrix, "bsr": sps.bsr_matrix,
+            "dok": sps.dok_matrix, "dia": sps.dia_matrix, "csr_array": sps.csr_array, "coo_array": sps.coo_array}[c](M)
 
 
 def cases(tier):
@@ -146,6 +154,17 @@ def row(case, ctx):
             if r[0] != base[0]:
                 ctx.violation("container-dependent-lb", "the same labelled graphs in another container give another lower bound",
                               observed=r, expected=base, extra={"A": A, "B": B, "forms": [fa, fb]})
+        # further accepted containers, on a rotating partner form
+        if base is not None:
+            for k, fa in enumerate(EXTRA_FORMS):
+                fb = (EXTRA_FORMS + FORMS)[(k + jb) % (len(EXTRA_FORMS) + len(FORMS))]
+                ctx.state((A, B, fa, fb))
+                res, nw, _ = gh_call(ctx, to_form(A, fa), to_form(B, fb))
+                r = bracket(ctx, A, B, res, nw, [fa, fb])
+                ctx.valid()
+                if r is not None and r[0] != base[0]:
+                    ctx.violation("container-dependent-lb", "the same labelled graphs in another container give another lower bound",
+                                  observed=r, expected=base, extra={"A": A, "B": B, "forms": [fa, fb]})
         # explorer C: every single deviation from the default RNG answers when a component was cut out
         if (discA or discB) and (max(len(A), len(B)) <= 3 or min(len(A), len(B)) <= 2):
             NA, NB = np.array(A), np.array(B)
